@@ -221,6 +221,23 @@ func (s *Synchronizer) OnRemoteTimeout(timeout hotstuff.TimeoutMsg) {
 		s.logger.Infof("View timeout signature was not created by the sender %d", timeout.ID)
 		return
 	}
+	if s.config.HasAggregateQC() {
+		// The message signature and the sender's QC become part of the aggregate QC. If either
+		// is missing or invalid, the certificate assembled from this view's timeouts would not
+		// verify and the quorum for the view would be lost.
+		if _, ok := timeout.SyncInfo.QC(); !ok || timeout.MsgSignature == nil {
+			s.logger.Infof("Timeout message from %d lacks the QC or message signature needed for the aggregate QC", timeout.ID)
+			return
+		}
+		if err := s.auth.Verify(timeout.MsgSignature, timeout.ToBytes()); err != nil {
+			s.logger.Infof("Timeout message signature could not be verified: %v", err)
+			return
+		}
+		if signers := timeout.MsgSignature.Participants(); signers.Len() != 1 || !signers.Contains(timeout.ID) {
+			s.logger.Infof("Timeout message signature was not created by the sender %d", timeout.ID)
+			return
+		}
+	}
 	s.logger.Debug("OnRemoteTimeout (advancing view): ", timeout)
 	s.advanceView(timeout.SyncInfo)
 
